@@ -72,5 +72,9 @@ def run(ctx):
     ctx.rule = ("time grid: token lifetimes x inactivity timeouts x 'now' at offsets {-1s-1ns..+1s+1ns} around every boundary "
                 "(refreshed, cooldown end, expiry-leeway, half-life, expiry, timeout) x session end {far, now, just passed}; "
                 "distinct_nontrivial counts distinct (predicate-vector, lifetime, timeout-present) signatures")
+    # handler level: which requests perform grants, in which modes, and the metadata endpoint (session machine)
+    from lib.props import _mach
+    _mach.run_modes(ctx, ["history", "conc"], ["c08"])
+    ctx.rule += " ; plus session-machine histories and schedules with the handler-level monitor (grants only in proxy/forward-auth/refresh handlers, mode rules, cooldown, idempotent manual refresh, metadata endpoint)"
     ctx.assumptions += ["no int64 overflow of time arithmetic (durations far below 2^63 ns)",
                         "Go zero time.Time is modelled as an absent timeout"]
